@@ -570,6 +570,10 @@ def semantic_cases():
              lambda r: zlib.compress(r)[:len(zlib.compress(r)) // 2]),
             ("bomb-16MiB-claims-real", 1, len, lambda r: bomb),
             ("bomb-16MiB-claims-max", 1, lambda r: 2 ** 24 - 1,
+             lambda r: bomb),
+            ("bomb-16MiB-claims-0", 1, lambda r: 0, lambda r: bomb),
+            ("bomb-16MiB-claims-1", 1, lambda r: 1, lambda r: bomb),
+            ("bomb-16MiB-claims-half", 1, lambda r: len(r) // 2,
              lambda r: bomb)):
         C.append(("compcert-" + nm, "TLS1.3-RSA", "C", "CCERT",
                   comp_cert(alg, ul, pf)))
